@@ -26,6 +26,12 @@ func runSolverCtx(ctx context.Context, s solverSpec, input string, timeoutS int)
 	switch first {
 	case "unsat", "sat", "unknown":
 		verdict = first
+		// a malformed query makes the verdict meaningless (z3 carries on after an error)
+		for _, l := range strings.Split(output, "\n") {
+			if strings.HasPrefix(l, "(error ") && !strings.Contains(l, "model is not available") {
+				verdict = "error"
+			}
+		}
 	default:
 		if cctx.Err() != nil {
 			verdict = "timeout"
@@ -41,7 +47,7 @@ func runSolverCtx(ctx context.Context, s solverSpec, input string, timeoutS int)
 // hedgeDelay: how long the primary configuration runs alone before the other
 // configurations and solvers are started next to it. Solver run times on these queries
 // have a heavy tail that differs per configuration; racing cuts the tail.
-const hedgeDelay = 4 * time.Second
+const hedgeDelay = 2 * time.Second
 
 // dischargeHedged: primary first; after hedgeDelay all others join; first unsat/sat wins.
 func dischargeHedged(o *Obligation, timeoutS int) {
@@ -84,6 +90,11 @@ func dischargeHedged(o *Obligation, timeoutS int) {
 			running--
 			o.Time += r.t
 			outs = append(outs, r.name+": "+r.v+" "+firstLines(r.out, 2))
+			if r.v == "error" && strings.HasPrefix(r.name, "z3-new") {
+				// a query the primary solver cannot even parse is a defect of the generator
+				o.Verdict, o.Solver, o.Output = "error", r.name, r.out
+				return
+			}
 			if r.v == "unsat" || r.v == "sat" {
 				o.Verdict, o.Solver, o.Output = r.v, r.name, r.out
 				if r.v == "sat" && strings.HasPrefix(r.name, "z3-new") {
